@@ -402,7 +402,12 @@ func c08(c *an.Check) {
 			return ok && cl.Index == 0
 		}
 		okS = isMake && len(put) == 1 && put[0].Call.Args[1] == buf
-		if okS {
+		if app, isApp := buf.(*ssa.Call); isApp && an.BuiltinName(app) == "append" && len(put) == 1 {
+			// alternative form: prefix := make([]byte, 4, …); PutUint32(prefix, len(data)); Write(append(prefix, data...))
+			pre, isPre := app.Call.Args[0].(*ssa.MakeSlice)
+			okS = isPre && an.IsIntConst(pre.Len, 4) && isData(app.Call.Args[1]) && put[0].Call.Args[1] == ssa.Value(pre) &&
+				an.LenOf(st, an.ConvOf(put[0].Call.Args[2]), isData) && an.InstrDominates(put[0], app)
+		} else if okS {
 			sz, isAdd := ms.Len.(*ssa.BinOp)
 			okS = isAdd && sz.Op == token.ADD && an.LenOf(st, sz.X, isData) && an.IsIntConst(sz.Y, 4) && an.LenOf(st, an.ConvOf(put[0].Call.Args[2]), isData)
 			cp := false
